@@ -8,6 +8,7 @@ import (
 	"go/token"
 	"os"
 	"regexp"
+	"strings"
 
 	"github.com/reedom/convergen/pkg/builder"
 	"github.com/reedom/convergen/pkg/builder/model"
@@ -85,13 +86,25 @@ func NewParser(srcPath, dstPath string) (*Parser, error) {
 	if fileSrc == nil && parseErr != nil {
 		return nil, logger.Errorf("%v: %v", srcPath, parseErr)
 	}
+	imports := util.NewImportNames(fileSrc.Imports)
+	// The name of a package is not necessarily the last element of its import path
+	// (e.g. "example.com/lib/v2" declaring "package lib"); prefer the loaded name.
+	for _, spec := range fileSrc.Imports {
+		pkgPath := strings.ReplaceAll(spec.Path.Value, `"`, "")
+		if spec.Name != nil && (spec.Name.Name != "_" || imports[pkgPath] == "_") {
+			continue
+		}
+		if imp, ok := pkgs[0].Imports[pkgPath]; ok && imp.Name != "" {
+			imports[pkgPath] = imp.Name
+		}
+	}
 	return &Parser{
 		srcPath: fileSet.Position(fileSrc.Pos()).Filename,
 		fset:    fileSet,
 		file:    fileSrc,
 		pkg:     pkgs[0],
 		opts:    option.NewOptions(),
-		imports: util.NewImportNames(fileSrc.Imports),
+		imports: imports,
 	}, nil
 }
 
